@@ -11,6 +11,23 @@ from sym import *  # noqa
 from ir import *  # noqa
 
 
+def register_pow2(F):
+    """constants whose value is a power of two (an evaluable 2^k, or syntactically `1 << e`): dividing by them and
+    shifting by their logarithm are the same operation (sym.POW2_DEFS)"""
+    import sym as _sym
+    CE = ConstEval(F)
+    for b in F.bodies:
+        if b.dk not in ("Const", "AssocConst"):
+            continue
+        try:
+            t = Termizer(F, b).term(b.body)
+            v = CE.ev(t)
+        except Exception:
+            continue
+        if (isinstance(v, int) and v > 1 and v & (v - 1) == 0) or (t[0] == "op" and len(t) == 4 and t[1] == "<<" and t[2] == ("int", 1)):
+            _sym.POW2_DEFS.add(strip_generics(b.path))
+
+
 class ConstEval:
     def __init__(self, F):
         self.F = F
